@@ -66,7 +66,7 @@ GI_SCOPE = {
             (Q + "quic_session.py", "set_tls_decryptors|set_initial_decryptor|check_key_epoch|handle_crypto_frame|handle_packet"), (Q + "quic_decryptor.py", "__init__")],
     "C16": [(Q + "quic_session.py", "get_full_packet_number|decrypt_packet|set_packet_number_spaces|check_key_epoch"), (Q + "quic_dissector.py", "remove_header_protection|extract_quic_packet")],
     "C17": [(Q + "quic_frame.py", None), (Q + "quic_decode.py", None)],
-    "C18": [(T + "main.py", "run")],
+    "C18": [(T + "main.py", "run"), (Q + "quic_output_builder.py", None), (T + "output_builder.py", None)],
 }
 
 
@@ -119,7 +119,7 @@ prop("C01",
      ["cryptography's AEAD / CBC / ARC4 implementations"], controls=["c01-drop-seq-increment"])
 
 prop("C02",
-     lambda tier: [pkn.rule_E1, GI_for("C02"), WSI_for("C02"), LDI_for("C02"), LSI_for("C02"), STALE_for("C02"), frames.rule_varint, quic.rule_D8, quic.rule_T5_quic, quic.rule_T9_aad, quic.rule_T9_hp, quic.rule_epoch, quic.rule_D7b, quic.rule_frame_attrs,
+     lambda tier: [kdf.rule_B4, pkn.rule_E1, GI_for("C02"), WSI_for("C02"), LDI_for("C02"), LSI_for("C02"), STALE_for("C02"), frames.rule_varint, quic.rule_D8, quic.rule_T5_quic, quic.rule_T9_aad, quic.rule_T9_hp, quic.rule_epoch, quic.rule_D7b, quic.rule_frame_attrs,
                    B1_for("quic.quic_session", "quic.quic_dissector", "quic.quic_decryptor", "quic.quic_tls_parser", "quic.quic_output_builder"),
                    pkn.rule_pn_spaces, progress.rule_A2, quic.rule_itermut, frames.rule_T8, state.rule_attr_kinds, tcp.rule_full_scans, quic.rule_crypto_reassembly, kdf.rule_T6_quic, quic.rule_quic_handshake_state],
      "Decides: output grouping merges frames only within one input datagram and emits closed groups with their own time/direction (D8); key-name agreement producer → "
@@ -197,7 +197,7 @@ prop("C09",
      ["dpkt's block classes parse option lists correctly"], controls=["c09-label-too-long"])
 
 prop("C10",
-     lambda tier: [tcp.rule_full_scans, mirror.rule_B3_match, GI_for("C10"), WSI_for("C10"), LDI_for("C10"), LSI_for("C10"), cli.rule_D4, cli.rule_A6c, mirror.rule_B3_bind, state.rule_D6_reinit, output.rule_A7, B2_for("output_builder"), quic.rule_D8],
+     lambda tier: [state.rule_D6_ownership, tcp.rule_full_scans, mirror.rule_B3_match, GI_for("C10"), WSI_for("C10"), LDI_for("C10"), LSI_for("C10"), cli.rule_D4, cli.rule_A6c, mirror.rule_B3_bind, state.rule_D6_reinit, output.rule_A7, B2_for("output_builder"), quic.rule_D8],
      "Decides that configuration reaches every site: option table, int conversions, -m ⇒ keep_original_ports False, every server-port rewrite in both "
      "builders is control-dependent on that flag and the flag's provenance at every construction site is args.keep_original_ports, mapped/default port "
      "choice, client port never written (D4); Session creation dominated by the server-port membership test (A6c); the side whose port is a server port "
@@ -225,7 +225,7 @@ prop("C13",
      controls=["c13-stream-under-meta"])
 
 prop("C14",
-     lambda tier: [quic.rule_T9_hp, kdf.rule_B4, GI_for("C14"), WSI_for("C14"), LDI_for("C14"), LSI_for("C14"), tables.rule_T1, tables.rule_T2, tables.rule_T3_classes],
+     lambda tier: [kdf.rule_T6, kdf.rule_T7_keyblock, quic.rule_T9_hp, kdf.rule_B4, GI_for("C14"), WSI_for("C14"), LDI_for("C14"), LSI_for("C14"), tables.rule_T1, tables.rule_T2, tables.rule_T3_classes],
      "Static decision of the suite table: (T1) each of the code-point rows of the dict literal equals the IANA row of an independent "
      "registry copy; (T2) the 12-line resolver loop is read structurally (first-match in sub-table order, defaults, AES→GCM/CCM fix-up, "
      "MAC default) and every table name is resolved under exactly those semantics from the ordered literal sub-tables and compared "
@@ -237,7 +237,7 @@ prop("C14",
      controls=["c14-sha-before-sha256"])
 
 prop("C15",
-     lambda tier: [keylog.rule_E2_pipeline, GI_for("C15"), WSI_for("C15"), LDI_for("C15"), LSI_for("C15"), STALE_for("C15"), kdf.rule_T6, kdf.rule_T7_keyblock, kdf.rule_T5_tls, quic.rule_T5_quic, kdf.rule_B4, tables.rule_T3_iv, quic.rule_T9_hp, tcp.rule_full_scans, quic.rule_epoch, quic.rule_quic_handshake_state],
+     lambda tier: [tls.rule_types, keylog.rule_E2_pipeline, GI_for("C15"), WSI_for("C15"), LDI_for("C15"), LSI_for("C15"), STALE_for("C15"), kdf.rule_T6, kdf.rule_T7_keyblock, kdf.rule_T5_tls, quic.rule_T5_quic, kdf.rule_B4, tables.rule_T3_iv, quic.rule_T9_hp, tcp.rule_full_scans, quic.rule_epoch, quic.rule_quic_handshake_state],
      "Decides: every HKDF-Expand call site (TLS 1.3: 8, QUIC: 18 + Initial 6 + key update 6) derives the key/iv/hp of the role and epoch of the key-log label it is "
      "guarded by, with the RFC label bytes, declared lengths and output lengths; Initial keys independent of the negotiated suite; PRF labels, seed orders per purpose "
      "and PRF hash selection (T6); key block partitioned into consecutive gap-free slices MAC_c, MAC_s, key_c, key_s, IV_c, IV_s, by polynomial normal forms (T7k); "
